@@ -473,10 +473,30 @@ impl PublishBuilder {
 
         let rx =
             shared.wait_publish_response(idx, AckType::Receive, self.packet, Some(payload));
+        // completes exchange if this future is dropped
+        let guard = rx.is_ok().then(|| ReceiveGuard { id: Some(idx), shared: shared.clone() });
         async move {
-            rx?.await
+            let result = rx?.await;
+            if let Some(mut guard) = guard {
+                guard.id.take();
+            }
+            result
                 .map(move |ack| PublishReceived::new(ack.receive(), shared))
                 .map_err(|_| SendPacketError::Disconnected)
+        }
+    }
+}
+
+/// Publish (QoS 2) is sent, `PublishReceived` is not created yet
+struct ReceiveGuard {
+    id: Option<NonZeroU16>,
+    shared: Rc<MqttShared>,
+}
+
+impl Drop for ReceiveGuard {
+    fn drop(&mut self) {
+        if let Some(id) = self.id.take() {
+            self.shared.abandon_publish(id);
         }
     }
 }
